@@ -4,6 +4,7 @@ import gc
 import sys
 import json
 import errno
+import pathlib
 import shutil
 import sqlite3
 import tempfile
@@ -37,7 +38,7 @@ RULE = ('family = one cache directory, a source of 1-6 examples and a child-writ
         'N-th store). Reference model: directory contents index -> value, handles and '
         'sharing groups, upstream call counters. Non-trivial = a kill, fault, reopen or '
         'release happened; distinct = distinct (plan / history, kill point).')
-PROBES = ['examples_stored_as_separate_files', 'killed_inside_cache_set', 'killed_right_after_store', 'acked_index_served_after_kill',
+PROBES = ['directory_name_with_pattern_characters', 'foreign_file_in_directory_at_open', 'examples_stored_as_separate_files', 'killed_inside_cache_set', 'killed_right_after_store', 'acked_index_served_after_kill',
           'inflight_index_after_kill', 'reuse_false_refused', 'copy_outlived_original',
           'directory_removed_on_last_release', 'directory_kept_on_release',
           'disk_full_raised_on_miss', 'disk_full_hit_still_served', 'store_error_propagated']
@@ -303,9 +304,21 @@ def gen(rng, tier, index):
     for j in range(3):
         cases.append({'mode': 'life', 'n': n, 'kind': kind, 'big': big, 'nonevals': nonevals,
                       'ops': gen_life_ops(rng, n, kind)})
+        if rng.random() < 0.35:
+            # directory names that are also glob / regular expression patterns, a
+            # relative spelling, a pathlib.Path
+            cases[-1]['dirname'] = rng.choice(DIRNAMES)
+        if rng.random() < 0.2:
+            # a foreign file (also a hidden one) is in the directory before the
+            # first open: the directory is not empty
+            cases[-1]['plant'] = rng.choice(['.keep', 'notes.txt', '.nfs0001'])
     BIG[0] = False
     NONEVALS[0] = False
     return cases
+
+
+DIRNAMES = ['cache[v1]', 'run[0-9]', 'a*b', 'c?che', 'with space', '.hidden', 'sub/dir/cache',
+            'cache.d', '{x}', 'pathlib:cache']
 
 
 def gen_life_ops(rng, n, kind):
@@ -503,7 +516,16 @@ def run_life(case):
     n, kind = case['n'], case['kind']
     m = Model()
     tmp = tempfile.mkdtemp(prefix='c11_')
-    cache_dir = tmp + '/cache'
+    dirname = case.get('dirname') or 'cache'
+    as_path = dirname.startswith('pathlib:')
+    dirname = dirname.split(':', 1)[-1]
+    cache_dir = tmp + '/' + dirname
+    if '/' in dirname:
+        os.makedirs(os.path.dirname(cache_dir))
+    if case.get('plant'):
+        os.makedirs(cache_dir)
+        with open(os.path.join(cache_dir, case['plant']), 'w') as f_:
+            f_.write('foreign')
     ctx = W.set_ctx(W.Ctx())
     handles = {}       # name -> dataset
     group = {}         # name -> group id
@@ -526,7 +548,8 @@ def run_life(case):
                 nonempty = os.path.isdir(cache_dir) and len(os.listdir(cache_dir)) > 0
                 listing = sorted(os.listdir(cache_dir)) if os.path.isdir(cache_dir) else None
                 try:
-                    ds = ldc.DiskCacheDataset(up, cache_dir, reuse=reuse, clear=clear)
+                    ds = ldc.DiskCacheDataset(up, pathlib.Path(cache_dir) if as_path else cache_dir,
+                                              reuse=reuse, clear=clear)
                 except RuntimeError as e:
                     if nonempty and not reuse:
                         m.probes['reuse_false_refused'] = 1
@@ -545,6 +568,10 @@ def run_life(case):
                           'open(reuse=False) on a non-empty directory %s was accepted' % listing)
                 handles[h] = ds
                 ds = None
+                if case.get('dirname'):
+                    m.probes['directory_name_with_pattern_characters'] = 1
+                if case.get('plant') and nonempty:
+                    m.probes['foreign_file_in_directory_at_open'] = 1
                 g = len(gclear)
                 group[h] = g
                 gclear[g] = clear
